@@ -12,11 +12,13 @@ DiffAct(t2, lg, since) == /\ last' = [op |-> IF since THEN "since" ELSE "until",
                                      out |-> IF since THEN ZSince(cur.z, cur.t, t2, lg) ELSE ZUntil(cur.z, cur.t, t2, lg)]
                           /\ cur' = [cur EXCEPT !.t = t2]
 SodAct == last' = [op |-> "startOfDay", z |-> cur.z, t |-> cur.t, out |-> Ok(ZStartOfDay(cur.z, cur.t))] /\ UNCHANGED cur
+WptAct(sod) == last' = [op |-> "withPlainTime", z |-> cur.z, t |-> cur.t, sod |-> sod, out |-> ZWithPlainTime(cur.z, cur.t, sod)] /\ UNCHANGED cur
 HidAct == last' = [op |-> "dayLength", z |-> cur.z, t |-> cur.t, out |-> Ok(DayLength(cur.z, cur.t))] /\ UNCHANGED cur
 Next == /\ (OneStep => last = None)
         /\ \/ \E D \in Durs, ovf \in {"constrain"} : AddAct(D, ovf) \/ SubAct(D, ovf)
            \/ \E t2 \in Instants, lg \in Largests, s \in BOOLEAN : DiffAct(t2, lg, s)
            \/ SodAct \/ HidAct
+           \/ \E sod \in {0, 1800, 2 * 3600 + 1800, 3 * 3600, 12 * 3600, 86399} : WptAct(sod)
 Spec == Init /\ [][Next]_vars
 
 IsDiff == last.op \in {"until", "since"} /\ last.out.kind = "ok"
@@ -33,6 +35,10 @@ DiffLaws == IsDiff =>
      /\ (last.lg \in TimeUnits => ~HasDatePart(D) /\ sec = last.t2 - last.t)
      \* with a date largest unit the time part is shorter than the local day it falls in (never more than 2 days even across a 24 h skip)
      /\ (last.lg \in DateUnits => AbsI(sec) < 2 * 86400)
+\* withPlainTime keeps the local date and sets the time - unless that wall-clock time is skipped, when it is shifted forward by the gap
+WptLaws == (last.op = "withPlainTime" /\ last.out.kind = "ok") =>
+  LET w == Wall(last.z, last.out.val)   d0 == (Wall(last.z, last.t) \div 86400) * 86400
+  IN IF Classify(last.z, d0 + last.sod) = "gap" THEN w = d0 + last.sod + GapOf(last.z, d0 + last.sod) ELSE w = d0 + last.sod
 SodLaws == last.op = "startOfDay" =>
   LET s == last.out.val   d0 == (Wall(last.z, last.t) \div 86400) * 86400
   IN /\ s <= last.t
